@@ -219,6 +219,8 @@ where
             {
                 // Capture chunk + thread scratch by move
                 scope.spawn(move || {
+                    #[cfg(feature = "verif-hooks")]
+                    crate::bdd_arithmetic::verif_hooks::chunk_start(thread_idx);
                     for (idx, out_i) in out_chunk.iter_mut().enumerate() {
                         let (nodes, state_size) = circuit.get_circuit(thread_idx * chunk_size + idx);
 
